@@ -202,6 +202,22 @@ CHECKS = {
               'defects found by this check were repaired (fix: commits b722981, 96e1645).'),
         technique='contract-based deductive verification: symbolic execution of the real function bodies + Sigma-normal-form with hash-consed sum atoms + z3',
     ),
+    'C13': dict(
+        category='proof',
+        text=('Deductive check of chi.PopulationFilterLogPosterior executed on real population models (all single sub-models and selected '
+              'pairs / triples of the C02 kinds, incl. multi-dimensional pooled / heterogeneous blocks in every position) with symbolic vectors '
+              'and covariates against recording contract stubs for the filter (C12), the mechanistic model and the prior: the filter is '
+              're-ordered by argsort(times) and every simulated individual is simulated at the sorted times at exactly the psi given by the '
+              'published layout; the filter receives ybar + sigma eps (or ybar exp(sigma eps)); the value is prior + population density - '
+              'sum eps^2/2 + filter + a parameter-free term; evaluateS1 returns the same score and, in every coordinate, the mechanically '
+              'derived derivative (filter, mechanistic model and prior linearised through their returned gradients); names and IDs describe '
+              'each position.  Free and fixed noise scales, additive and log-scale noise, 1-2 observables, unsorted times.'),
+        design_ref='DESIGN.md section 4 (C13)',
+        note=('Filter / mechanistic model / prior by contract; 2 simulated individuals, dimensions <= 2, values symbolic; two genuine defects '
+              'found by this check were repaired (fix commits 40ff1e8, 59057dd); refutations replayed natively with a real Gaussian filter, a '
+              'toy mechanistic model and Gaussian priors (independent value reference + finite differences).'),
+        technique='contract-based deductive verification: symbolic execution of the real class against recording stubs, mechanically differentiated specification',
+    ),
 }
 NOT_APPLICABLE = {}
 
@@ -219,4 +235,5 @@ CHECK_MODULES = {
     'C10': 'contracts.c10',
     'C11': 'contracts.c11',
     'C12': 'contracts.c12',
+    'C13': 'contracts.c13',
 }
